@@ -354,8 +354,23 @@ def r3_typestate(P, rep, ctx):
     except ValueError as e:
         raise AnalysisError(f"C02.R3: _has_writable: {e}")
     cmp_ok = bool(hpaths)
+    # ... and "no" is only answered for a reason that makes an uncommitted patch impossible: no container, closed handle,
+    # handle not 'r+', or a recorded payload hash.  (Anything else -- e.g. how *this* object was opened -- hides a patch
+    # that another handle of the same record is still writing: merge / commit guards then let the operation through.)
+    neg_ok = True
+    bad_reason = ""
     for lits, v, n_ in hpaths:
         if isinstance(v, ast.Constant) and not v.value:
+            why = False
+            for k, tv in lits:
+                kp = M.pat(k)
+                if not tv and (k in ("self.__files__", "len(self.__files__)") or M.match("__f.mode == 'r+'", kp) is not None or M.match("'r+' == __f.mode", kp) is not None
+                               or M.match("self._ublock(__i).hdf5_hashsum is None", kp) is not None or M.match("bool(__f)", kp) is not None
+                               or (isinstance(kp, (ast.Name, ast.Subscript)) and "__files__" in hw.x(kp))):
+                    why = True
+            if not why:
+                neg_ok = False
+                bad_reason = " & ".join(("" if tv else "not ") + k for k, tv in lits)
             continue
         pos = {k for k, tv in lits if tv}
         for c_ in M.conjuncts(v):
@@ -365,6 +380,8 @@ def r3_typestate(P, rep, ctx):
         cmp_ok = cmp_ok and any(M.match("__f.mode == 'r+'", M.pat(k)) is not None or M.match("'r+' == __f.mode", M.pat(k)) is not None for k in pos)
     rep.check(cmp_ok, "C02.R3", fi.qual, "_has_writable is `mode == 'r+'`", fi.loc(), construct="mode comparison in _has_writable",
               message="_has_writable does not compare the newest container's mode with 'r+'")
+    rep.check(neg_ok, "C02.R3", fi.qual, "_has_writable answers False only when there is no container, the newest handle is closed / not 'r+', or its block carries a hash", fi.loc(), construct="negative answers of _has_writable",
+              message=f"_has_writable answers False when `{bad_reason}`: an uncommitted patch of the record is hidden from the guards of merge / commit / create_patch")
     # the handle mode alone is not a sound typestate (HDF5 shares open flags between the handles of a process):
     # a container whose user block already carries a payload hash is committed and must never count as writable
     f = F(ctx, fi)
